@@ -303,11 +303,11 @@ func (c *ClusterInfo) Sync(cluster *proxyv1alpha1.UpstreamCluster) error {
 
 	klog.V(5).Infof("[cluster info] syncing cluster info, name=%q", c.Cluster)
 
-	if cluster.Annotations != nil {
-		if err := c.syncFeatureGate(cluster.Annotations); err != nil {
-			// we should never get here because there is validating admission
-			return err
-		}
+	// also without annotations: gates switched on by an earlier version must
+	// fall back to their defaults
+	if err := c.syncFeatureGate(cluster.Annotations); err != nil {
+		// we should never get here because there is validating admission
+		return err
 	}
 
 	// sync flow control type
@@ -572,7 +572,15 @@ func (c *ClusterInfo) syncFeatureGate(annotations map[string]string) error {
 		}
 		return nil
 	}
-	return c.featuregate.Set(featuregate)
+	// the gates are those of the latest object only: start from the defaults
+	// instead of merging into the previous gates, so that a gate which is no
+	// longer listed falls back to its default
+	gates := features.DefaultMutableFeatureGate.DeepCopy()
+	if err := gates.Set(featuregate); err != nil {
+		return err
+	}
+	c.featuregate = gates
+	return nil
 }
 
 // upstream policy    enabled
